@@ -287,6 +287,16 @@ def eval_op(line, extra=None):
         except Exception as e:  # noqa
             return errstr(e)
         return msgstr(m)
+    if op == "lay":
+        # the model lays raw values out and packs them; the implementation parses the same bytes
+        lab = extra.get("label", int(tok[1]))
+        try:
+            m = RTCMMessage(payload=unhx(tok[2]), labelmsm=lab)
+        except Hang:
+            raise
+        except Exception as e:  # noqa
+            return errstr(e)
+        return msgstr(m)
     if op == "parse":
         lab = extra.get("label", int(tok[2]))
         try:
